@@ -92,6 +92,10 @@ def corpus():
         ["eq", ["not", ["li", 3]], ["not", c("ba")]],
         ["mul", ["subq", c("ia")], ["li", 2]],
         ["mul", ["coalesce", [["add", c("ia"), ["li", 1]], c("ib")]], ["li", 2]],
+        ["sub", ["pi", 5], c("ia")],
+        ["lt", ["pi", 5], ["add", c("ia"), ["pi", 1]]],
+        ["add", ["ps", "x"], c("sa")],
+        ["floordiv", ["pi", 7], ["sub", c("ia"), ["pi", 2]]],
         ["lt", c("ia"), ["true"]],  # the API raises
     ]
 
@@ -109,6 +113,7 @@ NODE_KINDS = (
     ["add", "sub", "mul", "truediv", "floordiv", "mod", "concat", "addstr"]
     + ["eq", "ne", "lt", "le", "gt", "ge", "is", "isnot", "isdistinct", "isnotdistinct", "isnull", "isnotnull"]
     + ["like", "notlike", "ilike", "notilike", "likeesc", "between", "notbetween"]
+    + ["contains", "startswith", "endswith", "icontains", "notcontains", "notistartswith"]
     + ["and", "or", "not", "notcol", "neg", "case", "casebool", "cast", "coalesce", "and1"]
 )
 
@@ -130,6 +135,12 @@ def mk(kind, ops):
         return [kind, a, b, None]
     if kind == "likeesc":
         return ["like", a, b, "/"]
+    if kind in ("contains", "startswith", "endswith", "icontains"):
+        return [kind, a, b, None]
+    if kind == "notcontains":
+        return ["not", ["contains", a, b, None]]
+    if kind == "notistartswith":
+        return ["not", ["istartswith", a, b, "/"]]
     if kind == "between":
         return ["between", a, b, c]
     if kind == "notbetween":
@@ -154,7 +165,8 @@ def mk(kind, ops):
 
 
 def natural_leaves(kind):
-    if kind in ("concat", "addstr", "like", "notlike", "ilike", "notilike", "likeesc"):
+    if kind in ("concat", "addstr", "like", "notlike", "ilike", "notilike", "likeesc", "contains", "startswith",
+                "endswith", "icontains", "notcontains", "notistartswith"):
         return leafs_for("str")
     if kind in ("and", "or", "not", "notcol", "casebool", "and1"):
         return leafs_for("bool")
@@ -302,7 +314,7 @@ def run(ctx, deep=False):
         if sig in seen:
             continue
         seen.add(sig)
-        nops = sum(1 for o in L.ops_of(u) if o not in ("col", "li", "ls", "ln", "lb", "null", "true", "false"))
+        nops = sum(1 for o in L.ops_of(u) if o not in ("col", "li", "ls", "ln", "lb", "null", "true", "false", "pi", "ps"))
         ctx.case(sig, nontrivial=nops >= 2)
         ctx.count("source=" + src)
         ctx.count("depth=%d" % min(L.depth(u), 8))
